@@ -17,11 +17,11 @@ Local Open Scope N_scope.
 
 Definition eqv (s s' : dstate) : Prop :=
   ds_defs s = ds_defs s' /\ ds_ts s = ds_ts s' /\ ds_lastoff s = ds_lastoff s' /\
-  ds_file s = ds_file s' /\ ds_g s = ds_g s' /\ ds_quirks s = ds_quirks s'.
+  ds_file s = ds_file s' /\ ds_g s = ds_g s' /\ ds_quirks s = ds_quirks s' /\ ds_hasts s = ds_hasts s'.
 
 Ltac eqv_tac :=
-  unfold eqv, with_unkf, with_unkm, with_defs, with_file, with_time, with_quirk in *;
-  cbn [ds_defs ds_ts ds_lastoff ds_unkf ds_unkm ds_file ds_g ds_quirks] in *;
+  unfold eqv, with_unkf, with_unkm, with_defs, with_file, with_time in *;
+  cbn [ds_defs ds_ts ds_lastoff ds_unkf ds_unkm ds_file ds_g ds_quirks ds_hasts] in *;
   intuition congruence.
 
 Lemma eqv_refl s : eqv s s.
@@ -45,23 +45,20 @@ Lemma eqv_file s s' f g : eqv s s' -> eqv (with_file s f g) (with_file s' f g).
 Proof. eqv_tac. Qed.
 Lemma eqv_time s s' ts lo : eqv s s' -> eqv (with_time s ts lo) (with_time s' ts lo).
 Proof. eqv_tac. Qed.
-Lemma eqv_quirk s s' q : eqv s s' -> eqv (with_quirk s q) (with_quirk s' q).
-Proof. eqv_tac. Qed.
 
 Lemma pts_eqv s s' u k n : eqv s s' ->
   fst (parse_time_stamp s u k n) = fst (parse_time_stamp s' u k n) /\
   eqv (snd (parse_time_stamp s u k n)) (snd (parse_time_stamp s' u k n)).
 Proof.
-  intros He. pose proof He as (Hd & Ht & Hl & Hf & Hg & Hq).
-  unfold parse_time_stamp. rewrite Ht.
+  intros He. pose proof He as (Hd & Ht & Hl & Hf & Hg & Hq & Hh).
+  unfold parse_time_stamp. rewrite Ht, Hh.
   destruct (u =? 0xFFFFFFFF); [cbn [fst snd]; split; [reflexivity|assumption]|].
   destruct (k =? kind_timeutc).
   - cbn [fst snd]. split; [reflexivity|].
     destruct (n =? c_fieldNumTimeStamp); [|assumption].
-    destruct (u =? 0); eqv_tac.
-  - destruct ((ds_ts s' =? 0) || (ds_ts s' <? c_systemTimeMarker)); cbn [fst snd].
-    + split; [reflexivity|eqv_tac].
-    + split; [reflexivity|assumption].
+    eqv_tac.
+  - destruct (negb (ds_hasts s') || (ds_ts s' <? c_systemTimeMarker)); cbn [fst snd];
+      (split; [reflexivity|assumption]).
 Qed.
 
 (* ------------------------------------------------------------ the simulation *)
@@ -249,7 +246,7 @@ Proof.
   intros He. unfold parse_data_message. cbv zeta.
   set (local := if compressed then _ else _).
   unfold get_st. cbn [bind]. ps_get_both.
-  pose proof He as (Hd & Ht & Hl & Hf & Hg & Hq).
+  pose proof He as (Hd & Ht & Hl & Hf & Hg & Hq & Hh).
   rewrite <- Hd.
   destruct (nth (N.to_nat local) (ds_defs s) None) as [dm|]; [|apply ps_fail; exact He].
   apply psim_bind.
@@ -262,12 +259,11 @@ Proof.
   - intros msgv s2 s2' He2. cbv beta.
     destruct compressed; cbn [negb]; [|apply psim_pdf; exact He2].
     ps_get_both.
-    pose proof He2 as (Hd2 & Ht2 & Hl2 & Hf2 & Hg2 & Hq2).
-    rewrite <- Ht2, <- Hl2.
-    destruct (ds_ts s2 =? 0); [apply psim_pdf; exact He2|].
+    pose proof He2 as (Hd2 & Ht2 & Hl2 & Hf2 & Hg2 & Hq2 & Hh2).
+    rewrite <- Ht2, <- Hl2, <- Hh2.
+    destruct (negb (ds_hasts s2)); [apply psim_pdf; exact He2|].
     unfold put_st. cbn [bind]. ps_put_both.
-    match goal with |- psim ?a ?b _ _ =>
-      assert (He3 : eqv a b) by (destruct (_ =? 0); [apply eqv_quirk|]; apply eqv_time; exact He2) end.
+    match goal with |- psim ?a ?b _ _ => assert (He3 : eqv a b) by (apply eqv_time; exact He2) end.
     unfold panic.
     ps_go ltac:(apply psim_pdf; assumption).
 Qed.
@@ -275,7 +271,7 @@ Qed.
 Lemma psim_add_msg m s s' : eqv s s' -> psim s s' (add_msg m) (add_msg m).
 Proof.
   intros He. unfold add_msg, get_st. cbn [bind]. ps_get_both.
-  pose proof He as (Hd & Ht & Hl & Hf & Hg & Hq).
+  pose proof He as (Hd & Ht & Hl & Hf & Hg & Hq & Hh).
   rewrite <- Hf, <- Hg.
   destruct (file_add (ds_file s) (ds_g s) m) as [f g|w].
   - unfold put_st. ps_put_both. apply ps_ret. apply eqv_file. exact He.
@@ -285,14 +281,14 @@ Qed.
 Lemma psim_set_def dm s s' : eqv s s' -> psim s s' (set_def dm) (set_def dm).
 Proof.
   intros He. unfold set_def, get_st, put_st. cbn [bind]. ps_get_both. ps_put_both.
-  pose proof He as (Hd & Ht & Hl & Hf & Hg & Hq).
+  pose proof He as (Hd & Ht & Hl & Hf & Hg & Hq & Hh).
   rewrite <- Hd. apply ps_ret. apply eqv_defs. exact He.
 Qed.
 
 Lemma psim_do_init s s' : eqv s s' -> psim s s' do_init do_init.
 Proof.
   intros He. unfold do_init, get_st. cbn [bind]. ps_get_both.
-  pose proof He as (Hd & Ht & Hl & Hf & Hg & Hq).
+  pose proof He as (Hd & Ht & Hl & Hf & Hg & Hq & Hh).
   rewrite <- Hf, <- Hg.
   destruct (file_init (ds_file s)) as [f|].
   - unfold put_st. ps_put_both. apply ps_ret. apply eqv_file. exact He.
@@ -401,7 +397,7 @@ Definition project (r : tout dres) : tout (option err * header * option file * r
 Lemma strip_finalize o o' s s' : eqv s s' ->
   strip_unknown (finalize_unknown o s) = strip_unknown (finalize_unknown o' s').
 Proof.
-  intros (Hd & Ht & Hl & Hf & Hg & Hq). unfold strip_unknown, finalize_unknown.
+  intros (Hd & Ht & Hl & Hf & Hg & Hq & Hh). unfold strip_unknown, finalize_unknown.
   cbn [f_header f_crc f_slots f_inited]. rewrite Hf. reflexivity.
 Qed.
 
@@ -428,7 +424,7 @@ Lemma decode_tail_sim o o' fid h fuel r r' : rsim r r' ->
 Proof.
   destruct r as [a c s|e c s|e c s|w|], r' as [a' c' s'|e' c' s'|e' c' s'|w'|];
     cbn [rsim]; try contradiction.
-  - intros (Ha & Hc & He). subst c'. pose proof He as (Hd & Ht & Hl & Hf & Hg & Hq).
+  - intros (Ha & Hc & He). subst c'. pose proof He as (Hd & Ht & Hl & Hf & Hg & Hq & Hh).
     unfold decode_tail. destruct fid.
     + cbn [project dr_err dr_hdr dr_file dr_rd dr_g dr_quirks option_map].
       rewrite (strip_finalize o o' s s' He), Hg, Hq. reflexivity.
@@ -439,10 +435,10 @@ Proof.
       rewrite (strip_finalize o o' (with_file s f (ds_g s)) (with_file s' f (ds_g s'))).
       * rewrite Hg, Hq. reflexivity.
       * rewrite <- Hg. apply eqv_file. exact He.
-  - intros (Ha & Hc & He). subst c' e'. pose proof He as (Hd & Ht & Hl & Hf & Hg & Hq).
+  - intros (Ha & Hc & He). subst c' e'. pose proof He as (Hd & Ht & Hl & Hf & Hg & Hq & Hh).
     unfold decode_tail. cbn [project dr_err dr_hdr dr_file dr_rd dr_g dr_quirks option_map].
     rewrite (strip_finalize o o' s s' He), Hg, Hq. reflexivity.
-  - intros (Ha & Hc & He). subst c' e'. pose proof He as (Hd & Ht & Hl & Hf & Hg & Hq).
+  - intros (Ha & Hc & He). subst c' e'. pose proof He as (Hd & Ht & Hl & Hf & Hg & Hq & Hh).
     unfold decode_tail. cbn [project dr_err dr_hdr dr_file dr_rd dr_g dr_quirks option_map].
     rewrite (strip_finalize o o' s s' He), Hg, Hq. reflexivity.
   - intros Hw. subst w'. reflexivity.
